@@ -194,6 +194,10 @@ impl Sut for SpState {
             for j in 0..self.cols {
                 a.push(SpAct::Insert(i, j, 1));
                 a.push(SpAct::Insert(i, j, 2));
+                // an occupied position overwritten with zero
+                if self.m.get(&(i, j)).map_or(false, |v| !v.is_zero()) {
+                    a.push(SpAct::Insert(i, j, 0));
+                }
             }
         }
         if self.m.values().all(|v| v.n.abs() < 4) {
